@@ -13,6 +13,7 @@ import json
 import os
 import time
 
+import verdict
 import vlib
 from vlib import Inconclusive, log
 
@@ -199,7 +200,7 @@ def find_script(scripts_path, run):
     return None
 
 
-def signature(prop, v, line, reset):
+def signature(v, line, reset):
     st = (line or {}).get("state") or {}
     meta = st.get("meta") or {}
     feats = []
@@ -325,44 +326,9 @@ def engine_check(prop, tier, seed, work, replay):
         allfiles.update(dr_kf.files)
 
     # 4. verdicts: reproduce, match against known findings
-    rc, nviol, known_hit, reported = 0, 0, {}, set()
-    by_sig = {}
-    # a broken state invariant persists over the following steps of the same run: the first failing step of a
-    # run is the one that counts (and the one whose call is named in the signature)
-    first = {}
-    for v in viols:
-        key = (v["src"], v["resetline"], v["clause"])
-        if key not in first or v["srcline"] < first[key]["srcline"]:
-            first[key] = v
-    for v in sorted(first.values(), key=lambda x: (x["src"], x["srcline"])):
-        line = vlib.read_line(v["src"], v["srcline"])
-        rs = vlib.read_line(v["src"], v["resetline"])
-        sig = signature(prop, v, line, rs)
-        by_sig.setdefault(sig, []).append((v, line, rs))
-    for sig, items in sorted(by_sig.items()):
-        k = vlib.match_known(prop, sig)
-        v, line, rs = items[0]
-        ok, desc = reproduce(prop, work, binary, v, allfiles[v["src"]], line, rs)
-        if not ok:
-            print("INCONCLUSIVE property=%s clause %s (signature %s) did not reproduce on replay" % (prop, v["clause"], sig))
-            rc = max(rc, 2)
-            continue
-        if k:
-            known_hit[sig] = len(items)
-            print("KNOWN-FINDING: property=%s %s (%s; %d recorded steps)" % (prop, k["description"], sig, len(items)))
-            continue
-        nviol += len(items)
-        desc["signature"] = sig
-        path = vlib.save_replay("%s-%s-seed%d-%d.json" % (prop, tier, seed, len(reported)), desc)
-        reported.add(sig)
-        print("VIOLATION property=%s replay=%s" % (prop, path))
-        print("  clause %s failed on %d recorded steps; first: op=%s seat=%s x=%s err=%r" % (
-            v["clause"], len(items), line.get("op"), line.get("seat"), line.get("x"), line.get("err")))
-        rc = 1
-    for k in vlib.load_known():
-        if k.get("property") == prop and k.get("status") == "open" and not any(
-                vlib.match_known(prop, s) is k or (vlib.match_known(prop, s) or {}).get("signature") == k.get("signature") for s in known_hit):
-            print("note: known finding %s no longer reproduces" % k.get("signature"))
+    rc, nviol, known_hit = verdict.judge(
+        prop, tier, seed, viols, signature,
+        lambda v, line, rs: reproduce(prop, work, binary, v, allfiles[v["src"]], line, rs))
 
     # 5. non-vacuity and both-sides comparison
     cnt = res["cnt"]
